@@ -80,6 +80,21 @@ func c12Plan(tier string) []PlanItem {
 			items = append(items, PlanItem{s, 1})
 		}
 	}
+	// the same sequences with a restart (Stop, then Start 60 ms later) after the k-th
+	// health tick: a term that ends by Stop and the term after it
+	for _, seq := range c12Seqs(flen) {
+		for _, thr := range []int{2, 3} {
+			for k := 1; k <= len(seq); k++ {
+				s := c12Scenario(seq, thr)
+				s.Name += fmt.Sprintf("/restart-after-tick%d", k)
+				at := 1*ms + time.Duration(k)*s.H + 120*ms + 7*us // after the k-th tick (a slow check ends 100 ms after its tick)
+				s.Script = append(s.Script,
+					Item{At: at, Actor: "lifeA", Do: "stop", Inst: "A", Fixed: true},
+					Item{At: at + 60*ms, Actor: "lifeA", Do: "start", Inst: "A", Fixed: true})
+				items = append(items, PlanItem{s, 0})
+			}
+		}
+	}
 	return items
 }
 
